@@ -79,7 +79,10 @@ class DefaultVizierServer:
         database_url=self._database_url,
         early_stop_recycle_period=self._early_stop_recycle_period,
     )
-    self._server = grpc.server(futures.ThreadPoolExecutor(max_workers=30))
+    self._server = grpc.server(
+        futures.ThreadPoolExecutor(max_workers=30),
+        options=stubs_util.GRPC_MESSAGE_SIZE_OPTIONS,
+    )
     vizier_service_pb2_grpc.add_VizierServiceServicer_to_server(
         self._servicer, self._server
     )
@@ -128,7 +131,10 @@ class DistributedPythiaVizierServer(DefaultVizierServer):
         policy_factory=self._policy_factory
     )
     # `max_workers=1` is used since we can only run one Pythia thread at a time.
-    self._pythia_server = grpc.server(futures.ThreadPoolExecutor(max_workers=1))
+    self._pythia_server = grpc.server(
+        futures.ThreadPoolExecutor(max_workers=1),
+        options=stubs_util.GRPC_MESSAGE_SIZE_OPTIONS,
+    )
     pythia_service_pb2_grpc.add_PythiaServiceServicer_to_server(
         self._pythia_servicer, self._pythia_server
     )
